@@ -54,6 +54,9 @@ type input struct {
 	Observed string `json:"observed,omitempty"` // busy-window only: did the call report a start error ("not-started") or a
 	//                                  result ("started")? the OS decides that race; the oracle allows both (see oracle)
 	exePath string // run-time only: where the fresh script is
+	// Exe "raw": Argv is handed over as it is (a real program such as sh or printf, or words that are empty);
+	// Script then DESCRIBES what that command does (O<hex>/E<hex> literal output, x<code>)
+	Argv []string `json:"argv,omitempty"`
 	Stdin string `json:"stdin,omitempty"` // standard input of the process that makes the call: "" (the harness' own) |
 	//                                  pipe-idle (open, nothing ever arrives) | pipe-pending (data waiting, writer still open) |
 	//                                  pipe-pending-closed (data waiting, then EOF) | socketpair (idle) | devnull | closed | file
@@ -189,6 +192,8 @@ func (in input) startable() bool {
 		return in.Dir != "missing"
 	case "rel-copy", "rel-sub":
 		return hasCopies(in.Dir)
+	case "raw": // a command whose first word is empty cannot be started
+		return len(in.Argv) > 0 && in.Argv[0] != "" && in.Dir != "missing"
 	case "busy-closed-before":
 		return in.Dir != "missing"
 	case "busy-window":
@@ -216,6 +221,8 @@ func (in input) args() []string {
 		return append([]string{filepath.Join(workDir, "no", "such", "executable")}, in.Script...)
 	case "missing-path":
 		return append([]string{"no-such-command-c14-verif"}, in.Script...)
+	case "raw":
+		return in.Argv
 	}
 	cwd := realDir(in.Dir)
 	exe := childBin
@@ -259,7 +266,7 @@ func expectedPrefix(script []string, s int, n int) []byte {
 	pat.Fill(b, s, 0)
 	var off int64
 	open := true
-	for _, t := range script {
+	for _, t := range toks(script) {
 		if ws, k, ok := tokWrite(t); ok {
 			if ws == s && open {
 				if t[0] == 'O' || t[0] == 'E' {
@@ -293,6 +300,9 @@ func expectedPrefix(script []string, s int, n int) []byte {
 //	                     A (shell ">>": +O_CREAT|O_APPEND), write N pattern bytes through it, close it
 //	g<s><N>              a grandchild that inherited the descriptors writes N pattern bytes; the child waits for it
 func tokWrite(t string) (s int, n int64, ok bool) {
+	if t == "" {
+		return 0, 0, false
+	}
 	str := func(c byte) int {
 		if c == 'e' || c == 'E' {
 			return 1
@@ -609,7 +619,7 @@ func oracle(in input) string {
 	// Whatever the route by which bytes reach a stream (descriptor 1/2, the stream re-opened by path
 	// with any flags, a grandchild that inherited it; an lseek attempt in between), the demand is the
 	// same: the capture is the concatenation, in order, of everything written to the stream.
-	for _, t := range in.Script {
+	for _, t := range toks(in.Script) {
 		if ws, k, ok := tokWrite(t); ok {
 			if open[ws] {
 				total[ws] += k
@@ -643,7 +653,7 @@ func coqProg(in input) string {
 	var acts []string
 	term := "(Exit 0)"
 loop:
-	for _, t := range in.Script {
+	for _, t := range toks(in.Script) {
 		arg := t[1:]
 		if ws, k, ok := tokWrite(t); ok {
 			acts = append(acts, "CWrite "+[]string{"SOut", "SErr"}[ws]+" "+strconv.FormatInt(k, 10))
@@ -671,12 +681,32 @@ func coqArgs(in input) string {
 	if in.Exe == "none" || in.Exe == "nil" {
 		return "(@nil str)"
 	}
+	if in.exactArgv() {
+		return lib.CoqStrList(in.args())
+	}
 	return "[" + lib.CoqStr(filepath.Base(in.args()[0])) + "]"
+}
+
+// exactArgv: cases in which the argument vector itself is the point (empty words): the model's OS
+// (cmd_sem) is keyed on the exact vector
+func (in input) exactArgv() bool {
+	if in.Exe == "raw" {
+		return true
+	}
+	for _, t := range in.Script {
+		if t == "" {
+			return in.Exe == "child"
+		}
+	}
+	return false
 }
 
 func coqModel(in input) string {
 	dir := lib.CoqStr(dirPath(in.Dir))
 	os_ := "(os_table " + dir + " p)"
+	if in.exactArgv() { // the program only behaves like p when it gets exactly this vector
+		os_ = "(os_table_args " + lib.CoqStrList(in.args()) + " " + dir + " p)"
+	}
 	if !in.startable() {
 		os_ = "(@os_fail count_ops)"
 	}
@@ -711,6 +741,17 @@ type gcase struct {
 	klass string
 }
 
+// toks: the words of a script that mean something to the child (it skips empty words)
+func toks(script []string) []string {
+	var out []string
+	for _, t := range script {
+		if t != "" {
+			out = append(out, t)
+		}
+	}
+	return out
+}
+
 func sz(n int64) string { return strconv.FormatInt(n, 10) }
 
 func gen(r *lib.Rng, tier string) []gcase {
@@ -726,7 +767,7 @@ func gen(r *lib.Rng, tier string) []gcase {
 		in := input{API: api, Exe: exe, Dir: dir, Script: script}
 		// model parameters: the theorems say the result does not depend on them
 		var bytes int64
-		for _, t := range script {
+		for _, t := range toks(script) {
 			if _, n, ok := tokWrite(t); ok {
 				bytes += n
 			}
@@ -974,6 +1015,42 @@ func gen(r *lib.Rng, tier string) []gcase {
 	add("start-fails-for-good", R, "not-executable", inh, "o100", "x0")
 	add("start-fails-for-good", I, "not-executable", "plain", "x7")
 
+	// empty words in the command: an empty first word cannot be started (an error - not a panic, not some
+	// other program); any other empty word reaches the command as an argument of its own
+	hxs := func(b string) string { return hex.EncodeToString([]byte(b)) }
+	raw := func(klass, api, dir string, argv []string, stdout, stderr string, rv int) {
+		var sc []string
+		if stdout != "" {
+			sc = append(sc, "O"+hxs(stdout))
+		}
+		if stderr != "" {
+			sc = append(sc, "E"+hxs(stderr))
+		}
+		sc = append(sc, "x"+strconv.Itoa(rv))
+		add(klass, api, "raw", dir, sc...)
+		out[len(out)-1].in.Argv = argv
+	}
+	for _, api := range []string{R, I, "RunInspections"} {
+		d := inh
+		if api == "RunInspections" {
+			d = "plain"
+		}
+		raw("empty-words", api, d, []string{""}, "", "", 0)
+		raw("empty-words", api, d, []string{"", ""}, "", "", 0)
+		raw("empty-words", api, d, []string{"", "sh", "-c", "echo hi"}, "", "", 0)
+		raw("empty-words", api, d, []string{"sh", "-c", "echo $# \"$1\" \"$2\"", "sh", "", "x"}, "2  x\n", "", 0)
+		raw("empty-words", api, d, []string{"printf", "%s|", "a", "", "b"}, "a||b|", "", 0)
+		raw("empty-words", api, d, []string{"printf", "%s|", "a", ""}, "a||", "", 0) // trailing empty word
+		raw("empty-words", api, d, []string{"sh", "-c", "echo $# >&2; exit 0", "sh", "", "", ""}, "", "3\n", 0)
+	}
+	raw("empty-words", R, inh, []string{"sh", "-c", "echo \"[$1]\"; exit $#", "sh", ""}, "[]\n", "", 1)
+	raw("empty-words", R, "plain", []string{"", "x"}, "", "", 0)
+	// the helper child with empty words among its script: n<N> = it must see N words, z<i> = word i must be empty
+	// (argv: child, d<cwd>, then the script)
+	add("empty-words", R, child, inh, "n8", "", "o10", "z3", "", "z6", "x3")
+	add("empty-words", I, child, "plain", "n7", "o100000", "", "e70000", "z4", "")
+	add("empty-words", R, child, inh, "", "n5", "z2", "e5")
+
 	// --- random interleavings ---
 	for i := 0; i < nRandom; i++ {
 		rr := r.Fork()
@@ -1055,7 +1132,7 @@ func gen(r *lib.Rng, tier string) []gcase {
 func stderrBeforeStdoutEOF(script []string) int64 {
 	var e int64
 	errOpen := true
-	for _, t := range script {
+	for _, t := range toks(script) {
 		if ws, n, ok := tokWrite(t); ok {
 			if ws == 1 && errOpen {
 				e += n
@@ -1079,7 +1156,7 @@ func trivial(in input) bool {
 	if !in.startable() {
 		return false
 	}
-	for _, t := range in.Script {
+	for _, t := range toks(in.Script) {
 		if _, _, ok := tokWrite(t); ok || t[0] == 'k' {
 			return false
 		}
